@@ -57,6 +57,7 @@ import (
 	"math"
 	"os"
 	"path/filepath"
+	"runtime"
 	"runtime/debug"
 	"sort"
 	"strconv"
@@ -96,6 +97,10 @@ func init() {
 }
 
 const (
+	// wall-clock limits only bound how long a genuine hang takes to be reported: far above anything a starved machine needs
+	replayWait   = 90 * time.Second
+	queryTimeout = 120 * time.Second
+
 	nodeID     = models.NodeID(1)
 	maxEntries = 24
 	// known finding (DESIGN.md D8): a name created after the metadata freeze and before the index
@@ -304,7 +309,13 @@ func (w *world) logf(format string, args ...any) { w.ops = append(w.ops, fmt.Spr
 
 func (w *world) fatalf(format string, args ...any) {
 	w.t.Helper()
-	w.t.Fatalf(format+"\nhistory (logs of leaders %v):\n  %s", append(args, w.leaders, strings.Join(w.ops, "\n  "))...)
+	stacks := ""
+	if msg := fmt.Sprintf(format, args...); strings.Contains(msg, "exceed timeout") || strings.Contains(msg, "does not finish") {
+		// a query / replay which does not complete: what every goroutine is doing (diagnosis of a genuine hang vs. a starved machine)
+		buf := make([]byte, 1<<20)
+		stacks = "\nall goroutines:\n" + string(buf[:runtime.Stack(buf, true)])
+	}
+	w.t.Fatalf(format+"\nhistory (logs of leaders %v):\n  %s%s", append(args, w.leaders, strings.Join(w.ops, "\n  "), stacks)...)
 }
 
 func (w *world) begin(name string) {
@@ -1091,7 +1102,7 @@ func (w *world) recoverImage(p crash.Point) {
 			replica.VerifReplicaStep(pending[order[k%len(order)]%len(pending)], nodeID)
 		}
 	}
-	deadline := time.Now().Add(10 * time.Second)
+	deadline := time.Now().Add(replayWait)
 	for _, im := range imgs {
 		for im.present && !stepped {
 			st := family.GetState()
@@ -1916,7 +1927,7 @@ func recoverPlain(t *testing.T, img, db string, want map[models.NodeID]int64) (*
 	}
 	shard, _ := n.Shard(db, 0)
 	family, _ := shard.GetOrCrateDataFamily(baseTime)
-	deadline := time.Now().Add(10 * time.Second)
+	deadline := time.Now().Add(replayWait)
 	for leader, seq := range want {
 		for family.GetState().ReplicaSequences[int32(leader)] < seq && time.Now().Before(deadline) {
 			time.Sleep(time.Millisecond)
